@@ -507,6 +507,23 @@ def m_iter_next(I, fr, callee, m, args):
     return NONE if x is None else Some(x)
 
 
+@model(r'^<(.*) as Iterator>::(rposition|rfind)(?:::<(.*)>)?$|^<(.*) as DoubleEndedIterator>::(rposition|rfind)(?:::<(.*)>)?$')
+def m_iter_rposition(I, fr, callee, m, args):
+    """search from the back; the index reported by rposition counts from the front"""
+    op = m.group(2) or m.group(5)
+    it = args[0]
+    if isinstance(it, Ref):
+        it = I.load_ref(it)
+    if not isinstance(it, IterV):
+        return NotImplemented
+    xs = iter_collect(I, it)
+    for k in range(len(xs) - 1, -1, -1):
+        r = I.call_closure(args[1], [xs[k]] if op == 'rposition' else [I.new_ref(xs[k], 'rfind')])
+        if I.ctx.branch(r):
+            return Some(usize(k)) if op == 'rposition' else Some(xs[k])
+    return NONE
+
+
 @model(r'^<(.*) as Iterator>::(all|any|position|count|last|sum|fold|for_each|collect|min_by|max_by|find|find_map|nth|min|max|try_fold|partition|unzip|eq|min_by_key|max_by_key)(?:::<(.*)>)?$')
 def m_iter_consume(I, fr, callee, m, args):
     op = m.group(2)
@@ -609,6 +626,14 @@ def m_iter_consume(I, fr, callee, m, args):
             if take:
                 best, bref = xv, x
         return Some(bref)
+    if op == 'eq':
+        other = args[1]
+        ys = iter_collect(I, to_iter(I, other))
+        if len(xs) != len(ys):
+            return FALSE
+        from .models import eq_dispatch_deep
+        e = z3.And([z3.BoolVal(True)] + [eq_dispatch_deep(I, deref_val(I, x), deref_val(I, y)) for x, y in zip(xs, ys)])
+        return sc_from(e, 'bool')
     raise Unsupported("Iterator::" + op)
 
 
